@@ -80,6 +80,7 @@ TAG_PROPS = {
     "answer:isempty": ["C05", "C02"], "answer:retain": ["C13", "C02"], "answer:retainf": ["C13", "C02"],
     "answer:cip": ["C02", "C08", "C18"], "final": ["C02", "C05"], "panic": ["C02", "C18"],
     "retain": ["C13"], "cost": ["C06"], "cap": ["C14"],
+    "uaf": ["C03"], "drop": ["C04"], "double-free": ["C03", "C04"], "early-free": ["C03", "C04"], "retire-reachable": ["C03"],
 }
 
 
@@ -106,16 +107,19 @@ def props_of_failure(f):
     return ps
 
 
-def run(seed, cases, max_ops=60, max_keys=40, tag="seq"):
+def run(seed, cases, max_ops=60, max_keys=40, tag="seq", life=False):
     """returns dict with harness report, model diffs (classified), sample lines"""
     os.makedirs(os.path.join(C.BUILD, "run"), exist_ok=True)
     base = os.path.join(C.BUILD, "run", "%s-%d-%d" % (tag, seed, os.getpid()))
     ops, impl, model, rep = base + ".ops", base + ".impl", base + ".model", base + ".json"
     rc, out = C.sh([C.HARNESS_BIN, "seq", "--seed", str(seed), "--cases", str(cases), "--max-ops", str(max_ops),
-                    "--max-keys", str(max_keys), "--ops", ops, "--impl", impl, "--report", rep], timeout=3600)
+                    "--max-keys", str(max_keys), "--ops", ops, "--impl", impl, "--report", rep,
+                    "--progress", base + ".progress"] + (["--life", "1"] if life else []), timeout=3600)
     res = {"harness_rc": rc, "diffs": [], "report": None, "model_ran": False, "files": (ops, impl, model)}
     if rc != 0 or not os.path.exists(rep):
         res["harness_error"] = out[-2000:]
+        res["crash_at"] = open(base + ".progress").read() if os.path.exists(base + ".progress") else "?"
+        res["rc"] = rc
         return res
     res["report"] = json.load(open(rep))
     if os.path.exists(C.MODEL_BIN):
